@@ -24,7 +24,7 @@ def translate(ctx):
 
 
 def explore(ctx):
-    cases = []
+    cases = LC.CaseBuffer(ctx)
     for c in LC.gen_cases(ctx, ctx.budget(500, 12000), mutate_p=0.75, prop='C08'):
         cases.append(c)
         LC.record_distribution(ctx, c)
